@@ -2,17 +2,26 @@
 
 package federation
 
-// C19 harness 2: the real saltedTokenProvider with a stub local backend.
+// C19 harness 2: the real saltedTokenProvider with a stub local backend (CProv), and the real federation.Conn
+// (stub local backend, real rpc.Conn remotes bbbbb and zzzzz whose HTTP transport records instead of sending):
+//   CCrc:  Conn.ContainerRequestCreate with every combination of token origin (issued here / elsewhere, v2 /
+//          legacy), user origin, scopes, explicit runtime_token, target cluster; the request on the wire is
+//          taken apart, the forwarded runtime_token is read back from its body.
+//   CConn: other Conn methods that reach a remote (get/update by uuid, collection by PDH, user get/list with a
+//          login cluster): everything sent to a remote is recorded.
 
 import (
 	"context"
+	"encoding/json"
 	"errors"
 	"fmt"
+	"net/http"
 	"net/url"
 	"os"
 	"strings"
 	"testing"
 
+	"git.arvados.org/arvados.git/lib/controller/rpc"
 	"git.arvados.org/arvados.git/sdk/go/arvados"
 	"git.arvados.org/arvados.git/sdk/go/auth"
 )
@@ -74,6 +83,14 @@ func TestVerifC19Prov(t *testing.T) {
 			continue
 		}
 		r := vCaseRand(seed, i)
+		if i%3 == 2 {
+			if i%2 == 0 || i%9 == 5 {
+				c19CrcCase(t, cs, i, r)
+			} else {
+				c19ConnCase(t, cs, i, r)
+			}
+			continue
+		}
 		remote := c19Remote(r)
 		ntok := []int{0, 1, 1, 1, 2, 2, 3, 4}[r.Intn(8)]
 		var toks []string
@@ -142,4 +159,349 @@ func TestVerifC19Prov(t *testing.T) {
 		cs.Add(i, term, desc, ntok > 0 && credsTerm != "None", tags...)
 	}
 	cs.Write()
+}
+
+// ---- the real federation.Conn over a recording transport ----
+
+type c19Who struct {
+	ok         bool // the token is known to the local cluster
+	uuid, api  string
+	scopes     []string
+	lookupKind int // what the provider's lookup of a legacy token gets: 0 unauthorized, 1 error, 2 ok
+}
+
+type c19ConnLocal struct {
+	arvados.API
+	who        map[string]c19Who // by first token of the context
+	user       string            // uuid of the current user; "" = error
+	localCalls []string
+	bad        string
+}
+
+func (l *c19ConnLocal) BaseURL() url.URL { return url.URL{} }
+func (l *c19ConnLocal) first(ctx context.Context) (string, bool) {
+	creds, ok := auth.FromContext(ctx)
+	if !ok || len(creds.Tokens) == 0 {
+		return "", false
+	}
+	return creds.Tokens[0], true
+}
+func (l *c19ConnLocal) APIClientAuthorizationCurrent(ctx context.Context, opts arvados.GetOptions) (arvados.APIClientAuthorization, error) {
+	tok, ok := l.first(ctx)
+	if !ok {
+		return arvados.APIClientAuthorization{}, c19HTTPErr{401}
+	}
+	w, known := l.who[tok]
+	if !known || !w.ok {
+		if known && w.lookupKind == 0 {
+			return arvados.APIClientAuthorization{}, c19HTTPErr{401}
+		}
+		return arvados.APIClientAuthorization{}, c19HTTPErr{500}
+	}
+	return arvados.APIClientAuthorization{UUID: w.uuid, APIToken: w.api, Scopes: w.scopes}, nil
+}
+func (l *c19ConnLocal) UserGetCurrent(ctx context.Context, opts arvados.GetOptions) (arvados.User, error) {
+	if l.user == "" {
+		return arvados.User{}, c19HTTPErr{401}
+	}
+	return arvados.User{UUID: l.user, IsActive: true}, nil
+}
+func (l *c19ConnLocal) ContainerRequestCreate(ctx context.Context, opts arvados.CreateOptions) (arvados.ContainerRequest, error) {
+	l.localCalls = append(l.localCalls, "ContainerRequestCreate")
+	return arvados.ContainerRequest{UUID: "aaaaa-xvhdp-000000000000000"}, nil
+}
+func (l *c19ConnLocal) CollectionGet(ctx context.Context, opts arvados.GetOptions) (arvados.Collection, error) {
+	l.localCalls = append(l.localCalls, "CollectionGet")
+	return arvados.Collection{}, c19HTTPErr{404}
+}
+func (l *c19ConnLocal) UserBatchUpdate(ctx context.Context, opts arvados.UserBatchUpdateOptions) (arvados.UserList, error) {
+	l.localCalls = append(l.localCalls, "UserBatchUpdate")
+	if tok, _ := l.first(ctx); tok != c19RootToken {
+		l.bad = "UserBatchUpdate called without the system root token"
+	}
+	return arvados.UserList{}, nil
+}
+
+const c19RootToken = "systemroottokensystemroottokensystemroottoken0000019"
+
+var c19ConnRemotes = []string{"bbbbb", "zzzzz"}
+
+func c19RemoteHost(id string) string { return "r" + id + ".remote.example" }
+
+// c19NewConn builds a Conn as federation.New does, with the stub as local backend; rpc.NewConn takes
+// http.DefaultTransport at construction time, which is the recorder while this function runs
+func c19NewConn(rec *c19Recorder, local *c19ConnLocal, loginCluster string) *Conn {
+	cluster := &arvados.Cluster{ClusterID: "aaaaa", SystemRootToken: c19RootToken, RemoteClusters: map[string]arvados.RemoteCluster{}}
+	cluster.Login.LoginCluster = loginCluster
+	saved := http.DefaultTransport
+	http.DefaultTransport = rec
+	defer func() { http.DefaultTransport = saved }()
+	remotes := map[string]backend{}
+	for _, id := range c19ConnRemotes {
+		cluster.RemoteClusters[id] = arvados.RemoteCluster{Host: c19RemoteHost(id), Scheme: "http", Proxy: true}
+		rc := rpc.NewConn(id, &url.URL{Scheme: "http", Host: c19RemoteHost(id)}, false, saltedTokenProvider(local, id))
+		rc.SendHeader = http.Header{"Via": {"HTTP/1.1 arvados-controller"}}
+		remotes[id] = rc
+	}
+	return &Conn{cluster: cluster, local: local, remotes: remotes}
+}
+
+func c19ConnDest(host string) string {
+	for _, id := range c19ConnRemotes {
+		if host == c19RemoteHost(id) {
+			return id
+		}
+	}
+	return "?" + host
+}
+
+// the caller's tokens with what the local cluster knows about them
+type c19Caller struct {
+	tokens   []string
+	who      map[string]c19Who
+	tabTerms []string // provider lookups of legacy tokens, as in CProv
+	origin   string
+	secrets  []string // the unsalted secrets that must not reach any remote: v2 secrets, and legacy tokens issued by this cluster
+	local    []string // those of tokens issued by this cluster (uuid aaaaa-...)
+}
+
+func c19GenCaller(r *vRand) *c19Caller {
+	c := &c19Caller{who: map[string]c19Who{}}
+	other := []string{"bbbbb", "zzzzz", "ccccc"}[r.Intn(3)]
+	scopes := [][]string{{"all"}, {"all"}, {"all"}, {"all"}, {"all"}, {}, {"GET /arvados/v1/users/current"}, {"all", "GET /"}}[r.Intn(8)]
+	var tok string
+	var w c19Who
+	switch k := r.Intn(10); {
+	case k < 4: // issued here, v2
+		uuid, secret := "aaaaa-gj3su-"+c19Str(r, c19Alnum, 15), c19Str(r, c19Alnum, 41+r.Intn(20))
+		tok, w, c.origin = "v2/"+uuid+"/"+secret, c19Who{ok: true, uuid: uuid, api: secret, scopes: scopes}, "local-v2"
+		if r.Chance(1, 5) {
+			tok += "/" + other + "-dz642-" + c19Str(r, c19Alnum, 15) // container uuid suffix
+		}
+		c.secrets, c.local = append(c.secrets, secret), append(c.local, secret)
+	case k < 6: // issued elsewhere, as seen here: salted for this cluster
+		uuid, salt := other+"-gj3su-"+c19Str(r, c19Alnum, 15), c19Str(r, "0123456789abcdef", 40)
+		tok, w, c.origin = "v2/"+uuid+"/"+salt, c19Who{ok: true, uuid: uuid, api: salt, scopes: scopes}, "foreign-salted"
+	case k < 7: // issued elsewhere, unsalted secret
+		uuid, secret := other+"-gj3su-"+c19Str(r, c19Alnum, 15), c19Str(r, c19Alnum, 41+r.Intn(20))
+		tok, w, c.origin = "v2/"+uuid+"/"+secret, c19Who{ok: true, uuid: uuid, api: secret, scopes: scopes}, "foreign-unsalted"
+		c.secrets = append(c.secrets, secret)
+	case k < 9: // legacy format, known here
+		tok = c19Str(r, c19Alnum, 41+r.Intn(15))
+		uuid := "aaaaa-gj3su-" + c19Str(r, c19Alnum, 15)
+		c.origin = "legacy-local"
+		if r.Chance(1, 3) {
+			uuid, c.origin = other+"-gj3su-"+c19Str(r, c19Alnum, 15), "legacy-foreign"
+		}
+		w = c19Who{ok: true, uuid: uuid, api: tok, scopes: scopes, lookupKind: 2}
+		c.tabTerms = append(c.tabTerms, fmt.Sprintf("(%s, AcaOk %s %s)", gStr(tok), gStr(uuid), gStr(tok)))
+		if c.origin == "legacy-local" { // a legacy token of another cluster is passed on as it is when it belongs to the target
+			c.secrets, c.local = append(c.secrets, tok), append(c.local, tok)
+		}
+	default: // not known here
+		switch r.Intn(3) {
+		case 0:
+			tok, w, c.origin = c19Str(r, c19Alnum, 41+r.Intn(15)), c19Who{lookupKind: 0}, "legacy-unknown-401"
+			c.tabTerms = append(c.tabTerms, fmt.Sprintf("(%s, AcaUnauthorized)", gStr(tok)))
+		case 1:
+			tok, w, c.origin = c19Str(r, c19Alnum, 41+r.Intn(15)), c19Who{lookupKind: 1}, "legacy-unknown-error"
+			c.tabTerms = append(c.tabTerms, fmt.Sprintf("(%s, AcaError)", gStr(tok)))
+		default:
+			secret := c19Str(r, c19Alnum, 41+r.Intn(20))
+			tok, w, c.origin = "v2/aaaaa-gj3su-"+c19Str(r, c19Alnum, 15)+"/"+secret, c19Who{}, "v2-unknown"
+			c.secrets, c.local = append(c.secrets, secret), append(c.local, secret)
+		}
+	}
+	c.tokens = []string{tok}
+	c.who[tok] = w
+	if r.Chance(1, 3) { // a reader token
+		t2, s2 := c19V2(r, other)
+		if r.Chance(1, 3) {
+			t2, s2 = "v2/"+other+"-gj3su-"+c19Str(r, c19Alnum, 15)+"/"+c19Str(r, "0123456789abcdef", 40), ""
+		}
+		c.tokens = append(c.tokens, t2)
+		if s2 != "" {
+			c.secrets = append(c.secrets, s2)
+			if strings.HasPrefix(t2, "v2/aaaaa") {
+				c.local = append(c.local, s2)
+			}
+		}
+	}
+	return c
+}
+
+func c19SentTerm(s c19Sent) (string, []c19Part) {
+	parts := c19Parts(s)
+	return fmt.Sprintf("(%s, %s, %s)", gStr(c19ConnDest(s.Host)), gStr(s.Header.Get("Authorization")), c19PartsTerm(parts)), parts
+}
+
+func c19CrcCase(t *testing.T, cs *vCases, i int, r *vRand) {
+	caller := c19GenCaller(r)
+	local := &c19ConnLocal{who: caller.who}
+	userOrigin := "local"
+	switch r.Intn(8) {
+	case 0:
+		userOrigin = "error"
+	case 1, 2, 3:
+		userOrigin = []string{"bbbbb", "zzzzz", "ccccc"}[r.Intn(3)]
+		local.user = userOrigin + "-tpzed-" + c19Str(r, c19Alnum, 15)
+	default:
+		local.user = "aaaaa-tpzed-" + c19Str(r, c19Alnum, 15)
+	}
+	target := []string{"bbbbb", "zzzzz", "bbbbb", "zzzzz", "bbbbb", "zzzzz", "bbbbb", "zzzzz", "aaaaa", "", "ccccc", "zzzz", "zzzzz-xvhdp-012345678901234"}[r.Intn(13)]
+	attrs := map[string]interface{}{"command": []string{"echo", "ok"}, "container_image": "arvados/jobs", "cwd": "/", "output_path": "/out"}
+	rtTerm := "None"
+	var rtGiven interface{}
+	// half of the cases: the stratum in which the decision about the runtime_token is reached (remote target,
+	// token known here with scope "all", user known, no explicit runtime_token), token origin x user origin free
+	decisive := r.Bool()
+	if decisive {
+		target = c19ConnRemotes[r.Intn(2)]
+		if w := caller.who[caller.tokens[0]]; w.ok {
+			w.scopes = [][]string{{"all"}, {"all", "GET /"}}[r.Intn(2)]
+			caller.who[caller.tokens[0]] = w
+		}
+		if local.user == "" {
+			userOrigin = []string{"aaaaa", "zzzzz"}[r.Intn(2)]
+			local.user = userOrigin + "-tpzed-" + c19Str(r, c19Alnum, 15)
+			if userOrigin == "aaaaa" {
+				userOrigin = "local"
+			}
+		}
+	} else if r.Chance(1, 3) {
+		rt := "v2/aaaaa-gj3su-" + c19Str(r, c19Alnum, 15) + "/" + c19Str(r, c19Alnum, 50)
+		if r.Chance(1, 4) {
+			rt = ""
+		}
+		attrs["runtime_token"] = rt
+		rtGiven = rt
+		rtTerm = "(Some " + gStr(rt) + ")"
+	}
+	rec := &c19Recorder{respond: func(req *http.Request, body string) (int, string) {
+		return 200, `{"kind":"arvados#containerRequest","uuid":"zzzzz-xvhdp-000000000000000"}`
+	}}
+	conn := c19NewConn(rec, local, "")
+	ctx := auth.NewContext(context.Background(), &auth.Credentials{Tokens: caller.tokens})
+	ctx = arvados.ContextWithRequestID(ctx, "req-"+c19Str(r, c19Alnum, 8))
+	_, err := conn.ContainerRequestCreate(ctx, arvados.CreateOptions{ClusterID: target, Attrs: attrs})
+	sent := rec.take()
+	if len(sent) > 1 {
+		t.Fatalf("case %d: %d requests sent for one ContainerRequestCreate", i, len(sent))
+	}
+	oSent, oAuth, oRT := len(sent) == 1, "", "None"
+	var parts []c19Part
+	var rtSeen interface{}
+	if oSent {
+		oAuth = sent[0].Header.Get("Authorization")
+		parts = c19Parts(sent[0])
+		form, perr := url.ParseQuery(sent[0].Body)
+		if perr != nil {
+			t.Fatalf("case %d: body of the forwarded request does not parse: %v", i, perr)
+		}
+		var cr map[string]interface{}
+		if jerr := json.Unmarshal([]byte(form.Get("container_request")), &cr); jerr != nil {
+			t.Fatalf("case %d: container_request in the forwarded body does not parse: %v", i, jerr)
+		}
+		if v, ok := cr["runtime_token"]; ok {
+			rtSeen = v
+			if sv, ok := v.(string); ok {
+				oRT = "(Some " + gStr(sv) + ")"
+			} else {
+				t.Fatalf("case %d: forwarded runtime_token is not a string: %v", i, v)
+			}
+		}
+	}
+	w := caller.who[caller.tokens[0]]
+	acaTerm := "None"
+	if w.ok {
+		acaTerm = fmt.Sprintf("(Some (%s, %s, %s))", gStr(w.uuid), gStr(w.api), gStrs(w.scopes))
+	}
+	userTerm := "None"
+	if local.user != "" {
+		userTerm = "(Some " + gStr(local.user) + ")"
+	}
+	term := fmt.Sprintf("CCrc \"aaaaa\" %s %s %s %s %s %s %s %s %s %s %s", gStrs(c19ConnRemotes), gStr(target), gStrs(caller.tokens), gList(caller.tabTerms),
+		rtTerm, acaTerm, userTerm, gBool(oSent), gStr(oAuth), oRT, c19PartsTerm(parts))
+	leaks := c19Leaks(caller.local, parts)
+	desc := map[string]interface{}{"index": i, "kind": "Conn.ContainerRequestCreate", "cluster_id": target, "tokens": caller.tokens, "token_origin": caller.origin,
+		"token_record": map[string]interface{}{"known": w.ok, "uuid": w.uuid, "api_token": w.api, "scopes": w.scopes}, "user_uuid": local.user,
+		"runtime_token_given": rtGiven, "error": fmt.Sprint(err), "sent": sent, "runtime_token_sent": rtSeen, "local_calls": local.localCalls,
+		"secrets_of_local_tokens": caller.local, "local_secret_found_in": c19LeakList(leaks)}
+	cs.Add(i, term, desc, true, "crc-token="+caller.origin, "crc-user="+userOrigin, fmt.Sprintf("crc-sent=%v", oSent), fmt.Sprintf("crc-rt-given=%v", rtTerm != "None"),
+		fmt.Sprintf("crc-target-remote=%v", target == "bbbbb" || target == "zzzzz"), fmt.Sprintf("crc-scope-all=%v", len(w.scopes) > 0 && w.scopes[0] == "all"), fmt.Sprintf("crc-leak=%v", len(leaks) > 0), fmt.Sprintf("crc-decisive=%v/token=%s/user=%s", decisive, map[bool]string{true: "here", false: "elsewhere"}[strings.HasPrefix(w.uuid, "aaaaa")], userOrigin))
+}
+
+func c19ConnCase(t *testing.T, cs *vCases, i int, r *vRand) {
+	caller := c19GenCaller(r)
+	local := &c19ConnLocal{who: caller.who, user: "aaaaa-tpzed-" + c19Str(r, c19Alnum, 15)}
+	dest := c19ConnRemotes[r.Intn(2)]
+	rec := &c19Recorder{respond: func(req *http.Request, body string) (int, string) {
+		segs := strings.Split(req.URL.Path, "/")
+		last := segs[len(segs)-1]
+		if len(last) == 27 {
+			return 200, `{"uuid":"` + last + `"}`
+		}
+		return 200, `{"items":[{"uuid":"zzzzz-tpzed-000000000000000"}]}`
+	}}
+	ctx := auth.NewContext(context.Background(), &auth.Credentials{Tokens: caller.tokens})
+	ctx = arvados.ContextWithRequestID(ctx, "req-"+c19Str(r, c19Alnum, 8))
+	uuid := func(infix string) string { return dest + "-" + infix + "-" + c19Str(r, c19Alnum, 15) }
+	login := ""
+	var method string
+	var err error
+	k := r.Intn(10)
+	if k == 7 {
+		login = dest
+	}
+	conn := c19NewConn(rec, local, login)
+	switch k {
+	case 0:
+		method = "CollectionGet(uuid)"
+		_, err = conn.CollectionGet(ctx, arvados.GetOptions{UUID: uuid("4zz18")})
+	case 1:
+		method = "CollectionGet(pdh)"
+		_, err = conn.CollectionGet(ctx, arvados.GetOptions{UUID: c19Str(r, "0123456789abcdef", 32) + "+" + fmt.Sprint(r.Intn(1000))})
+	case 2:
+		method = "ContainerRequestGet"
+		_, err = conn.ContainerRequestGet(ctx, arvados.GetOptions{UUID: uuid("xvhdp"), Select: []string{"uuid", "name"}})
+	case 3:
+		method = "ContainerRequestUpdate"
+		_, err = conn.ContainerRequestUpdate(ctx, arvados.UpdateOptions{UUID: uuid("xvhdp"), Attrs: map[string]interface{}{"priority": 1, "name": "x y"}})
+	case 4:
+		method = "ContainerGet"
+		_, err = conn.ContainerGet(ctx, arvados.GetOptions{UUID: uuid("dz642")})
+	case 5:
+		method = "GroupGet"
+		_, err = conn.GroupGet(ctx, arvados.GetOptions{UUID: uuid("j7d0g")})
+	case 6:
+		method = "UserGet"
+		_, err = conn.UserGet(ctx, arvados.GetOptions{UUID: uuid("tpzed")})
+	case 7:
+		method = "UserList(login cluster)"
+		_, err = conn.UserList(ctx, arvados.ListOptions{Limit: -1})
+	case 8:
+		method = "UserUpdate"
+		_, err = conn.UserUpdate(ctx, arvados.UpdateOptions{UUID: uuid("tpzed"), Attrs: map[string]interface{}{"prefs": map[string]interface{}{"a": 1}}})
+	default:
+		method = "CollectionUpdate"
+		_, err = conn.CollectionUpdate(ctx, arvados.UpdateOptions{UUID: uuid("4zz18"), Attrs: map[string]interface{}{"name": "n"}})
+	}
+	if local.bad != "" {
+		t.Fatal(local.bad)
+	}
+	sent := rec.take()
+	secrets := append([]string{c19RootToken}, caller.secrets...)
+	var sentTerms []string
+	leaks := map[string]bool{}
+	for _, s := range sent {
+		st, parts := c19SentTerm(s)
+		sentTerms = append(sentTerms, st)
+		for k := range c19Leaks(secrets, parts) {
+			leaks[k] = true
+		}
+	}
+	term := fmt.Sprintf("CConn %s %s %s %s", gStrs(caller.tokens), gList(caller.tabTerms), gStrs(secrets), gList(sentTerms))
+	desc := map[string]interface{}{"index": i, "kind": "Conn." + method, "tokens": caller.tokens, "token_origin": caller.origin, "error": fmt.Sprint(err), "sent": sent,
+		"local_calls": local.localCalls, "secret_found_in": c19LeakList(leaks), "secrets": secrets}
+	cs.Add(i, term, desc, len(sent) > 0, "conn-method="+method, "conn-token="+caller.origin, fmt.Sprintf("conn-sent=%d", len(sent)), fmt.Sprintf("conn-leak=%v", len(leaks) > 0))
 }
